@@ -384,6 +384,32 @@ def coq_obligations(ctx, props_file, extra_targets=(), allowed_axioms=()):
     mod = "PV." + props_file[:-2].replace("/", ".")
     os.makedirs(CASES, exist_ok=True)
     audit = os.path.join(CASES, "Audit_%s_p%d.v" % (ctx.prop_id, os.getpid()))
+    # Quick tier, many theorems: Print Assumptions walks the whole dependency cone once per theorem (about 0.5 s each
+    # over the Reals), so first audit ONE term that mentions every theorem; its assumption set is the union.  If that
+    # union stays within the allow-list every theorem does; otherwise (and always in the thorough tier) audit one by one.
+    if not ctx.thorough and len(thms) > 40:
+        with open(audit, "w") as f:
+            f.write("Require Import %s.\n" % mod)
+            tup = "I"
+            for th in reversed(thms):
+                tup = "(@%s, %s)" % (th, tup)
+            f.write("Definition audit_all_theorems := %s.\n" % tup)
+            f.write('Goal True. idtac "@@ALL". exact I. Qed.\nPrint Assumptions audit_all_theorems.\n')
+        rc, out = sh(["coqc", "-Q", ".", "PV", os.path.relpath(audit, COQ)], timeout=600, cwd=COQ)
+        if rc == 0 and "@@ALL" in out:
+            rest = out.split("@@ALL", 1)[1].strip()
+            axs = [] if rest.startswith("Closed under the global context") else \
+                [a for a in re.findall(r"^([A-Za-z_][\w.']*)\s*:", rest, re.M) if a not in ("Axioms", "Section", "Variables")]
+            notok = [a for a in axs if not any(a == al or a.endswith("." + al) for al in allowed_axioms)]
+            if not notok:
+                ctx.checker_cmds.append("coqc Audit (one Print Assumptions over the tuple of all %d theorems)" % len(thms))
+                for th in thms:
+                    ctx.obligation("theorem:" + th, "theorem", True,
+                                   "closed" if not axs else "combined audit: axioms of all theorems together: " + ", ".join(axs))
+                ctx.trusted.append("axioms used by the property theorems (Print Assumptions, combined over %d theorems): " % len(thms) +
+                                   (", ".join(sorted(axs)) if axs else "none (closed under the global context)"))
+                ctx.coverage["theorems"] = ctx.coverage.get("theorems", []) + thms
+                return True
     with open(audit, "w") as f:
         f.write("Require Import %s.\n" % mod)
         for th in thms:
